@@ -283,6 +283,7 @@ fn dec_snap_json<E: MkEngine>(obj: &DecObj<E>, live: bool) -> (String, Option<(u
                 .us("bits", s.bitmap_len)
                 .us("obase", s.original_base_pos)
                 .us("rbase", s.recovery_base_pos)
+                .str("bptr", &format!("{:x}", s.bitmap_ptr))
                 .done(),
             Some((s.data_ptr, s.data_capacity, s.bitmap_len)),
         ),
@@ -940,6 +941,7 @@ pub fn run_dec<E: MkEngine>(x: &mut Exec, init: &Value, script: &[StepRef]) -> R
                             .us("bits", s.bitmap_len)
                             .us("obase", s.original_base_pos)
                             .us("rbase", s.recovery_base_pos)
+                .str("bptr", &format!("{:x}", s.bitmap_ptr))
                             .done();
                         trace_event(x, "dec", st, util::OK_JSON, &snap, None, &allocs, Some(true));
                         check_proj("dec", &snap, to).map_err(mm)?;
@@ -1804,6 +1806,7 @@ pub fn free_dec<E: MkEngine>(x: &mut Exec, rng: &mut impl Rng, len: usize, big: 
                     .us("bits", s.bitmap_len)
                     .us("obase", s.original_base_pos)
                     .us("rbase", s.recovery_base_pos)
+                .str("bptr", &format!("{:x}", s.bitmap_ptr))
                     .done();
                 let nq = rng.gen_range(0..4);
                 for _ in 0..nq {
